@@ -11,7 +11,8 @@ class C12(vlib.Spec):
                 "C12_filter_map", "C12_filter_map_terminates",
                 "C12_flat_map", "C12_flatten", "C12_flat_map_terminates", "C12_flatten_terminates",
                 "C12_inspect", "C12_unzip_fixed", "C12_fanout_fixed", "C12_fanout_fixed_terminates",
-                "C12_unzip_fixed_terminates", "C12_unzip_partial", "C12_unzip_terminates", "C12_fanout_partial", "C12_fanout_terminates",
+                "C12_unzip_fixed_terminates", "C12_demux_fixed", "C12_demux_partial",
+                "C12_demux_strict_refuted", "C12_unzip_partial", "C12_unzip_terminates", "C12_fanout_partial", "C12_fanout_terminates",
                 "C12_fanout_strict_refuted", "C12_unzip_strict_refuted"]
     crate, group, binary = "h_push", "light", "h_push"
     shrink_rounds = 20
